@@ -68,6 +68,8 @@ var zzTables = [][]zzOp{
 	{zzH("/a", "GET"), zzH("/b", "GET"), zzH("/d", "GET"), zzH("/e", "GET"), zzH("/c/{id}", "GET"), zzH("/{x}", "POST"), zzRm("/c/{id}")},
 	// 23: removals that name methods a route does not (or cannot) hold: TRACE, HEAD, OPTIONS, next to real ones
 	{zzH("/a", "GET", "POST"), zzH("/b/{x}", "GET", "DELETE"), zzRm("/a", "TRACE"), zzRm("/b/{x}", "DELETE", "TRACE", "HEAD"), zzRm("/a", "OPTIONS", "POST")},
+	// 24: ignored named parameters that end the pattern (alone, behind a capturing one), an ignored interceptor one
+	{zzH("/f/{-p}", "GET"), zzH("/g/{-d:digit}", "POST"), zzH("/h/{i}/{-r}", "GET")},
 }
 
 var zzMethods = []string{"GET", "HEAD", "POST", "OPTIONS", "DELETE", "PUT", "TRACE", "", "BOGUS"}
